@@ -21,16 +21,8 @@ def prove(name, goal, hyps=(), timeout_ms=20000, statement=None):
     for h in hyps:
         s.add(h)
     s.add(z3.Not(goal))
-    import threading
-    t = threading.Timer(timeout_ms / 1000.0 * 1.5 + 3.0, s.ctx.interrupt)
-    t.daemon = True
-    t.start()
-    try:
-        r = s.check()
-    except z3.Z3Exception:
-        r = z3.unknown
-    finally:
-        t.cancel()
+    from pyvc.verify import hard_check
+    r = hard_check(s, timeout_ms)
     d = dict(name=name, kind="lemma", backend="z3", time=time.time() - t0, statement=statement or name)
     if r == z3.unsat:
         d["verdict"] = "PROVED"
